@@ -273,6 +273,88 @@ def run_histories(chk, stats):
                           {'first': first_text, 'second': second_text})
 
 
+def stdout_carry_over(chk, stats):
+    """Pending output must not cross from one job to the next, and a job run again after a stop
+    must write what its first complete run wrote — with the PRODUCTION output binding
+    (`std_out_output.configure()`, the process-wide StdOutOutput) and a stop request at every
+    single event of scripts whose `printf` values are computed across delays."""
+    import io
+    from bardolph.controller.script_job import ScriptJob
+    from bardolph.lib import i_lib, injection, std_out_output
+    pop = [{'label': 'A', 'kind': 'plain'}]
+    scripts = [
+        'define slow with x begin time 1 wait time 0 return x end printf "{} {}" 1 [slow 7] print 3 println 4',
+        'define slow with x begin time 1 wait time 0 return x end print 5 printf "{} {} {}" [slow 1] 2 [slow 3] print 6',
+        'print 1 time 1 wait print 2 on all printf "{}" 3 time 1 wait println 4',
+    ]
+    follower = 'print "b" println "c" printf "{}" 9'
+
+    class Tee(io.TextIOBase):
+        def __init__(self, timeline):
+            self.timeline, self.text = timeline, []
+
+        def writable(self):
+            return True
+
+        def write(self, s):
+            self.text.append(s)
+            self.timeline.append(('out', s))
+            return len(s)
+
+    def run(job, stop_after=None):
+        timeline = []
+        simnet.install(copy.deepcopy(pop))
+        std_out_output.configure()                      # the production output
+        if stop_after is not None:
+            class Stopper(list):
+                def append(self, item):
+                    list.append(self, item)
+                    if len(self) == stop_after:
+                        job.request_stop()
+            timeline = Stopper()
+        injection.bind_instance(env.RecordingClock(timeline)).to(i_lib.Clock)
+        job._machine._clock = injection.provide(i_lib.Clock)
+        tee = Tee(timeline)
+        old = sys.stdout
+        sys.stdout = tee
+        try:
+            job.execute()
+        finally:
+            sys.stdout = old
+        return ''.join(tee.text), len(timeline)
+
+    for text in scripts:
+        ref_job = ScriptJob.from_string(text)
+        reference, n_events = run(ref_job)
+        alone, _ = run(ScriptJob.from_string(follower))
+        for k in range(1, n_events + 1):
+            simnet.install(copy.deepcopy(pop))
+            job = ScriptJob.from_string(text)
+            run(job, stop_after=k)
+            # the same process-wide output object goes on: do NOT reconfigure between the jobs
+            nxt = ScriptJob.from_string(follower)
+            timeline = []
+            tee = Tee(timeline)
+            old = sys.stdout
+            sys.stdout = tee
+            try:
+                nxt.execute()
+                job.execute()
+            finally:
+                sys.stdout = old
+            got = ''.join(tee.text)
+            chk.count()
+            stats['stdout_carry_over_cases'] = stats.get('stdout_carry_over_cases', 0) + 1
+            if got != alone + reference:
+                chk.violation('pending-output-carries-over',
+                              'after a run stopped at its event {} the next job and a re-run of the stopped job '
+                              'write {!r}; alone they write {!r}'.format(k, got[:80], (alone + reference)[:80]),
+                              {'stopped_script': text, 'stopped_after_event': k, 'next_script': follower})
+                break
+        else:
+            chk.nontrivial_case(('carry', text))
+
+
 def main():
     chk = Check('C17')
     chk.lean_phase(sections={'ResetCoverage'})
@@ -280,6 +362,7 @@ def main():
     stats = {'compiles': 0, 'compile_outcomes': {}, 'executions': 0, 'stopped_runs': 0}
     parse_histories(chk, stats)
     run_histories(chk, stats)
+    stdout_carry_over(chk, stats)
     chk.sample({'compile_history': [TRUNCATIONS[2], 'on all']})
     chk.sample({'run_history': ['complete', 'complete', 'stopped-after-k-events', 'complete']})
     # two scripts at the same time (harness/concurrent.py): each must compute what it computes alone
